@@ -1,0 +1,25 @@
+//go:build verif
+
+package storage
+
+// Contracts for the in-memory store (C04): what it reports is the replay of its log.
+
+// the effect of a list of postings on (address, asset)
+//@ fold postBal(ps []ledger.Posting, address string, asset string) int = sum p :: ite(p.Asset == asset, ite(p.Destination == address, val(p.Amount), 0) - ite(p.Source == address, val(p.Amount), 0), 0)
+
+// the postings a log entry commits
+//@ def logPostings(l) = ite(typeis(l.Data, "ledger.NewTransactionLogPayload"), as(l.Data, "ledger.NewTransactionLogPayload").Transaction.Postings, as(l.Data, "ledger.RevertedTransactionLogPayload").RevertTransaction.Postings)
+//@ def movesFunds(l) = typeis(l.Data, "ledger.NewTransactionLogPayload") || typeis(l.Data, "ledger.RevertedTransactionLogPayload")
+//@ fold logBal(ls []*ledger.ChainedLog, address string, asset string) int = sum l :: ite(movesFunds(l), postBal(logPostings(l), address, asset), 0)
+
+//@ func (*storage.InMemoryStore).GetBalance$1
+//@   inline
+//@   loop 1 invariant 0 - 1 <= rangeindex && rangeindex < len(postings)
+//@   loop 1 invariant balance != nil && val(balance) == old(val(balance)) + postBal(postings[:rangeindex+1], address, asset)
+
+//@ func (*storage.InMemoryStore).GetBalance
+//@   property C04
+//@   requires m != nil
+//@   ensures err == nil && ret0 != nil && val(ret0) == logBal(m.logs, address, asset)
+//@   loop 1 invariant 0 - 1 <= rangeindex && rangeindex < len(m.logs)
+//@   loop 1 invariant balance != nil && val(balance) == logBal(m.logs[:rangeindex+1], address, asset)
